@@ -25,7 +25,7 @@ type chCase struct {
 	// a callback, is still being written (the polling writer is held), another Send with a callback being buffered
 	Carrier string
 	Rev     int
-	Batches [][]string // per batch, per Send: plain | resend | linger | resendLinger | nocb
+	Batches [][]string // per batch, per Send: plain | resend | linger | resendLinger | nocb | closer (its callback closes the session: Close(true))
 	Hold    bool       // ws/wt: hold the writer goroutine at its first statement while the batch is buffered
 }
 
@@ -48,7 +48,7 @@ func genCH(rt *rapid.T) chCase {
 		n := rapid.IntRange(1, 4).Draw(rt, fmt.Sprintf("b%d.n", b))
 		var batch []string
 		for i := 0; i < n; i++ {
-			batch = append(batch, rapid.SampledFrom([]string{"plain", "plain", "resend", "linger", "resendLinger", "resendLinger", "nocb"}).Draw(rt, fmt.Sprintf("b%d.%d", b, i)))
+			batch = append(batch, rapid.SampledFrom([]string{"plain", "plain", "resend", "linger", "resendLinger", "resendLinger", "nocb", "closer"}).Draw(rt, fmt.Sprintf("b%d.%d", b, i)))
 		}
 		c.Batches = append(c.Batches, batch)
 	}
@@ -112,6 +112,7 @@ func runCH(c chCase) (fail string, stats map[string]bool) {
 		defer g.Uninstall()
 	}
 	var oldPC *PollClient
+	closedByCallback := false
 	behaviour := map[int]string{} // tag -> what its callback does
 	seq := 0
 	var sentAll []Pkt
@@ -132,6 +133,12 @@ func runCH(c chCase) (fail string, stats map[string]bool) {
 		case "resend":
 			stats["send-from-callback"] = true
 			send("plain")
+		case "closer":
+			// the application has had enough: callbacks of the same hand-off that have not run yet must not
+			// run after the close event
+			stats["session-closed-from-a-send-callback"] = true
+			closedByCallback = true
+			sr.Sock.Close(true)
 		case "linger":
 			linger()
 		case "resendLinger":
@@ -229,6 +236,33 @@ func runCH(c chCase) (fail string, stats map[string]bool) {
 			time.Sleep(10 * time.Millisecond)
 			Settle()
 		}
+		if closedByCallback {
+			// closed by one of its callbacks: exactly one close event, and nothing of the session after it
+			time.Sleep(time.Second)
+			Settle()
+			if len(sr.Closes) != 1 || sr.Closes[0] != "forced close" {
+				return fmt.Sprintf("%s: a send callback called Close(true): close events %v", what, sr.Closes), stats
+			}
+			w.mu.Lock()
+			closeAt, late := -1, ""
+			for k, e := range sr.Events {
+				if e.Name == "close" && closeAt < 0 {
+					closeAt = k
+				} else if closeAt >= 0 && e.Name == "callback" && late == "" {
+					late = fmt.Sprint(e)
+				}
+			}
+			w.mu.Unlock()
+			if late != "" {
+				return fmt.Sprintf("%s: a send callback ran after the close event (another callback of the same hand-off had closed the session): %s", what, late), stats
+			}
+			ev := map[string]bool{}
+			if f := eventStructure(w, sr, ev); f != "" {
+				return what + ": " + f, stats
+			}
+			stats["carrier."+c.Carrier] = true
+			return "", stats
+		}
 		if len(sr.Closes) > 0 {
 			return fmt.Sprintf("%s: session closed (%v) without any cause", what, sr.Closes), stats
 		}
@@ -307,7 +341,7 @@ func TestC18CallbackChains(t *testing.T) {
 			rt.Fatalf("%v: %s", c, clipStr(res.Leak, 1500))
 		}
 	})
-	col.RequireClasses(t, "ev.batch>=2", "send-from-lingering-callback", "batch-buffered-behind-held-writer", "carrier.polling", "carrier.websocket", "carrier.webtransport", "carrier.up-websocket", "carrier.eager-websocket", "carrier.eager-webtransport", "switch-while-a-poll-response-with-a-callback-is-being-written")
+	col.RequireClasses(t, "ev.batch>=2", "send-from-lingering-callback", "batch-buffered-behind-held-writer", "carrier.polling", "carrier.websocket", "carrier.webtransport", "carrier.up-websocket", "carrier.eager-websocket", "carrier.eager-webtransport", "switch-while-a-poll-response-with-a-callback-is-being-written", "session-closed-from-a-send-callback")
 }
 
 // eagerUpgrade: the candidate probes, gets its pong and sends the upgrade packet at once, without waiting for the
